@@ -191,7 +191,7 @@ pub fn check_conflict_graph(u: &Universe, ix: &Index, p: &Problem, g: &GraphData
                 };
                 let ri = ix.string.get(&reason).copied();
                 let c = u.cand(x);
-                let by_provider = c.excluded.is_some() && c.excluded == ri && x.listed;
+                let by_provider = c.excluded.is_some() && c.excluded == ri;
                 let by_unknown = matches!(&c.deps, Deps::Unknown(s) if Some(*s) == ri);
                 if !(by_provider || by_unknown) {
                     return fail(
